@@ -228,6 +228,13 @@ fn resolve_mates_with(records: &mut [Record], generate_missing_names: bool) -> i
         // rightmost, and the sign for any middle segment is undefined. If segments cover the same
         // coordinates then the choice of which is leftmost and rightmost is arbitrary..."
         let template_length = calculate_template_length(record, mate);
+
+        let template_length = if mate.alignment_start <= record.alignment_start {
+            template_length
+        } else {
+            -template_length
+        };
+
         records[i].template_length = template_length;
 
         let mut j = i;
@@ -255,6 +262,12 @@ fn set_mate(record: &mut Record, mate: &mut Record) {
 }
 
 fn calculate_template_length(record: &Record, mate: &Record) -> i32 {
+    // _Sequence Alignment/Map Format Specification_ (2021-06-03) § 1.4.9 "TLEN": "It is set as 0
+    // [...] when the two are mapped to different reference sequences".
+    if record.reference_sequence_id != mate.reference_sequence_id {
+        return 0;
+    }
+
     calculate_template_length_chunk(
         record.alignment_start,
         record.read_length,
